@@ -366,3 +366,12 @@ def run(rep, programs):  # noqa: F811
 EXPLANATION = EXPLANATION + (
     ' R-NOWRITE-NONE (shared with C07): only Init::None hands tree_init = None to Trees::new, so allocate-all and free-all both write every tree counter.'
 )
+
+
+_run_c06b = run
+
+
+def run(rep, programs):  # noqa: F811
+    _run_c06b(rep, programs)
+    from props import c05
+    c05.r_rebuild_total(rep, programs["core"])     # free-all / allocate-all write the counter of every tree, also of a full one
